@@ -1,4 +1,5 @@
 import LyModel.Val.DrvBase
+import LyModel.Val.DrvBin
 import LyModel.Val.DrvDt
 import LyModel.Val.DrvHex
 import LyModel.Val.DrvInst
@@ -13,6 +14,7 @@ def handle (op : String) (args : List String) : String :=
   | d :: _ =>
     if d == "t:ietf-yang-types:date-and-time" then DrvDt.handle op args
     else if DrvHex.isDesc d then DrvHex.handle op args
+    else if DrvBin.isDesc d then DrvBin.handle op args
     else if DrvInst.isDesc d then DrvInst.handle op args
     else if d.startsWith "U(" || d.startsWith "pstr:" || d.startsWith "idref:" then DrvU.handle op args
     else handleBase op args
